@@ -186,7 +186,7 @@ def evaluate(cfg, limit=60.0):
 
 def check(prop, tier):
     res = common.Result(prop, tier)
-    N = BOUNDS[tier]
+    N = common.bound("C17_N", BOUNDS[tier])
     cfgs = tuples(N)
     res.bounds = {"N_max": N, "tuples": len(cfgs)}
 
